@@ -867,6 +867,11 @@ def encode_var(enc, it, lists):
         stops[i] = len(flat)
         flat.extend(junk(enc, it, 1))
     extra_stops = [0] * rng.choice([0, 0, 1])
+    for i in range(n):
+        # a zero-length list may start and stop anywhere, also beyond the content (valid: only start <= stop is required)
+        if len(lists[i]) == 0 and rng.random() < 0.3:
+            starts[i] = stops[i] = len(flat) + rng.choice([1, 2, 5])
+            enc.count('la_empty_beyond')
     return ['la', w, starts, stops + extra_stops, encode(enc, it, flat)]
 
 
@@ -1330,7 +1335,63 @@ def finish_case(cid, name, parts, tags, gen_spec=None):
     return C.Case(cid, 'ufunc', [name], list(parts), meta)
 
 
+def gen_nearmiss(rng, i):
+    """adversarial inputs for the same-offsets shortcut of _util.apply (all_same_offsets): a ListOffsetArray from 0 and a
+    ListArray whose starts/stops agree with those offsets everywhere except at one position (a shorter / longer / moved
+    list: the lengths differ there, so broadcasting must raise), or agree completely (must take the shortcut and be
+    right), in both operand orders, all index widths, optionally one list level down"""
+    n = rng.choice([2, 3, 3, 4])
+    lens = [rng.choice([1, 2, 2, 3]) for _ in range(n)]
+    offsets = [0]
+    for l in lens:
+        offsets.append(offsets[-1] + l)
+    tot = offsets[-1]
+    starts, stops = offsets[:-1], offsets[1:]
+    mode = rng.choice(['equal', 'stop-', 'stop-', 'start+', 'stop+', 'both'])
+    j = rng.randrange(n - 1) if n > 1 else 0            # never the last list: the last stop stays equal
+    starts, stops = list(starts), list(stops)
+    if mode == 'stop-':
+        stops[j] -= 1
+    elif mode == 'start+' and j > 0:
+        starts[j] += 1
+    elif mode == 'stop+':
+        stops[j] += 1
+    elif mode == 'both' and j > 0:
+        starts[j] += 1
+        stops[j - 1] -= 1 if stops[j - 1] - starts[j - 1] > 0 else 0
+    d1, d2 = rng.choice(NUM_DT), rng.choice(NUM_DT)
+    w1, w2 = rng.choice(G.WIDTHS), rng.choice(G.WIDTHS)
+
+    def data(dt, k):
+        lo = 0 if dt in UNSIGNED else -9
+        return [rng.randint(lo, 9) for _ in range(k)]
+    a = ['lo', w1, offsets, ['np', d1, [tot + rng.choice([0, 0, 2])], None]]
+    a[3][3] = data(d1, a[3][2][0])
+    b = ['la', w2, starts, stops, ['np', d2, [tot + rng.choice([0, 1])], None]]
+    b[3 + 1][3] = data(d2, b[4][2][0])
+    if rng.random() < 0.3:
+        # one list level down: the same pair below identical outer offsets
+        k = rng.randint(1, n)
+        outer = [0, k, n] if k < n else [0, n]
+        a = ['lo', 'i64', outer, a]
+        b = ['lo', 'i64', outer, b]
+    parts = ['(arr %s)' % G.sx(a), '(arr %s)' % G.sx(b)]
+    if rng.random() < 0.5:
+        parts.reverse()
+    names = [x for x in BINARY if not x.startswith('proj')]
+    name = rng.choice(names)
+    if (d1 in UNSIGNED or d2 in UNSIGNED) and CANON.get(name, name) in ('subtract',):
+        name = 'add'
+    return name, parts, dict(kind='nearmiss-same-offsets', mode=mode, nargs=2, fn=CANON.get(name, name),
+                             form='operator' if name.startswith('op_') else 'ufunc')
+
+
 def make_case(rng, i):
+    if rng.random() < 0.04:
+        name, parts, tags = gen_nearmiss(rng, i)
+        c = finish_case('c%d' % i, name, parts, tags)
+        c.meta['enc'] = {}
+        return c
     name, args, tags = gen_tuple(rng, i)
     enc = Enc(rng, plain=(rng.random() < 0.1))
     parts = [arg_sx(enc, a) for a in args]
